@@ -10,7 +10,7 @@ SHARD = 5000
 RULE = ("sparse random directed and undirected multigraphs on 1..10 nodes (self-loops, parallel edges, several components, "
         "cycles) in nine encodings (Graph u32/u8, StableGraph with vacancies, GraphMap, Csr, adj::List, MatrixGraph with "
         "removed ids, Reversed, NodeFiltered); on each: connected_components, is_cyclic_undirected, is_cyclic_directed, "
-        "tarjan (TarjanScc::run, tarjan_scc, node_component_index of every node), toposort (fresh and reused DfsSpace), "
+        "tarjan (TarjanScc::run, tarjan_scc, node_component_index of every node), condensation with and without make_acyclic (on the two Graph encodings, node weights = indices), toposort (fresh and reused DfsSpace), "
         "kosaraju_scc, has_path_connecting for 2..4 pairs, is_bipartite_undirected; outputs compared exactly with the model. "
         "distinct = sha1 of view+queries; non-trivial = at least 3 edges and (a cycle or two components)")
 ASSUMPTIONS = [
@@ -150,6 +150,53 @@ def oracle(stream, header, ops, obs):
                 for x in c:
                     if idx.get(x) != j:
                         return bad(k, "tarjan-node-component-index-inconsistent", (x, j))
+        elif name == "condensation":
+            if not first.startswith("nat"):
+                return bad(k, "condensation-malformed")
+            ncomp = nums(first)[0]
+            comps = [nums(x) for x in g[1:1 + ncomp]]
+            flat = [x for c in comps for x in c]
+            if sorted(flat) != sorted(nodes) or any(not c for c in comps):
+                return bad(k, "condensation-nodes-are-not-a-partition-of-the-nodes")
+            for c in comps:
+                if {y for y in nodes if y in R[c[0]] and c[0] in R[y]} != set(c):
+                    return bad(k, "condensation-node-is-not-a-strongly-connected-component", sorted(c))
+            cof = {x: i for i, c in enumerate(comps) for x in c}
+            el = nums(g[1 + ncomp])
+            got = [tuple(el[i:i + 3]) for i in range(0, len(el) - 2, 3)]
+            orig = [(s_, t_, w) for (_, s_, t_, w) in v.get("erefs", [])]
+            if a[0] == 0:
+                want = [(cof[s_], cof[t_], w) for (s_, t_, w) in orig]
+                if sorted(got) != sorted(want):
+                    return bad(k, "condensation-edges-are-not-the-original-edges-mapped-to-components", sorted(want)[:6])
+            else:
+                pairs = [(x, y) for (x, y, _) in got]
+                key = (lambda p_: p_) if v["directed"] else (lambda p_: tuple(sorted(p_)))
+                if any(x == y for (x, y) in pairs) or len({key(p_) for p_ in pairs}) != len(pairs):
+                    return bad(k, "condensation-make-acyclic-result-is-not-simple")
+                wantp = {key((cof[s_], cof[t_])) for (s_, t_, _) in orig if cof[s_] != cof[t_]}
+                if {key(p_) for p_ in pairs} != wantp:
+                    return bad(k, "condensation-make-acyclic-edge-set-wrong", sorted(wantp)[:6])
+                for (x, y, w) in got:
+                    if not any(key((cof[s_], cof[t_])) == key((x, y)) and w2 == w for (s_, t_, w2) in orig):
+                        return bad(k, "condensation-make-acyclic-weight-is-not-an-original-weight", (x, y, w))
+                if v["directed"]:
+                    # a condensation of a directed graph is acyclic
+                    indeg = {i: 0 for i in range(ncomp)}
+                    for (x, y) in pairs:
+                        indeg[y] += 1
+                    st = [i for i in indeg if indeg[i] == 0]
+                    seen = 0
+                    while st:
+                        x = st.pop()
+                        seen += 1
+                        for (p_, q_) in pairs:
+                            if p_ == x:
+                                indeg[q_] -= 1
+                                if indeg[q_] == 0:
+                                    st.append(q_)
+                    if seen != ncomp:
+                        return bad(k, "condensation-make-acyclic-result-has-a-cycle")
         elif name == "bipartite" and not v["directed"]:
             comp = reach(v, a[0])
             col = {a[0]: 0}
